@@ -23,48 +23,76 @@ class Evo:
         self.get_pre = self.cls.methods.get('GetPreimages')
         if not (self.get_image and self.get_inverse and self.get_pre):
             raise AnalysisError('public evolvent queries vanished')
-        fwd = self._closure(self.get_image)
-        inv = self._closure(self.get_inverse)
-        fd = [f for f in fwd if self._has_level_loop(f)]
-        idn = [f for f in inv if self._has_level_loop(f)]
-        if len(fd) != 1 or len(idn) != 1:
-            raise AnalysisError(f'forward/inverse descent not recognised: {[f.name for f in fwd]}, '
-                                f'{[f.name for f in inv]}')
-        self.forward, self.inverse = fd[0], idn[0]
-        # functions called from inside the level loops (node / number rules and digit helpers)
-        self.level_callees_fwd = self._level_callees(self.forward)
-        self.level_callees_inv = self._level_callees(self.inverse)
-        below = set(self.level_callees_fwd) | set(self.level_callees_inv)
+        # The two directions are recognised independently: a change that makes one of them unreadable must not take
+        # the rules about the other one down with it.  A direction that is not recognised raises (exit 2) when a rule
+        # first asks for it.
+        self._halves = {}
+        self._half_err = {}
+        for which, root in (('fwd', self.get_image), ('inv', self.get_inverse)):
+            try:
+                self._halves[which] = self._recognise(root)
+            except AnalysisError as err:
+                self._half_err[which] = err
+        if 'fwd' not in self._halves and 'inv' not in self._halves:
+            raise self._half_err['fwd']
+
+    def _recognise(self, root: FuncInfo) -> dict:
+        clo = self._closure(root)
+        desc = [f for f in clo if self._has_level_loop(f)]
+        if len(desc) != 1:
+            raise AnalysisError(f'descent of {root.short} not recognised among {[f.name for f in clo]}')
+        d = desc[0]
+        lc = self._level_callees(d)
+        below = set(lc)
         for g in list(below):
             below |= set(self._closure(g))
-        # coordinate transforms: the remaining functions that compute (not pure delegators)
-        ft = [f for f in fwd if f is not self.forward and f not in below and not self._is_delegator(f)]
-        it_ = [f for f in inv if f is not self.inverse and f not in below and not self._is_delegator(f)]
-        if len(ft) != 1 or len(it_) != 1:
+        # coordinate transform: the remaining function that computes (not a pure delegator)
+        ts = [f for f in clo if f is not d and f not in below and not self._is_delegator(f)]
+        if len(ts) != 1:
             # coefficient helpers shared by both directions compute but do not touch the working array: the
             # transform is the candidate that writes an attribute the descent itself works on
-            scratch = self._scratch_attrs()
-            ft2 = [f for f in ft if self._writes_attr(f, scratch)]
-            it2 = [f for f in it_ if self._writes_attr(f, scratch)]
-            if len(ft2) == 1 and len(it2) == 1:
-                ft, it_ = ft2, it2
-        if len(ft) != 1 or len(it_) != 1:
+            scratch = self._scratch_attrs_of(d)
+            t2 = [f for f in ts if self._writes_attr(f, scratch)]
+            if len(t2) == 1:
+                ts = t2
+        if len(ts) != 1:
             # workers of the one-dimensional shortcut (y[0] = x - 1/2) also write the working array; the coordinate
             # transform is the one that reads the box
             bnames = {'lowerBoundOfFloatVariables', 'upperBoundOfFloatVariables'}
             bnames |= {self.backing_field(b) for b in list(bnames)}
+            t3 = [f for f in ts if any(isinstance(n, ast.Attribute) and n.attr in bnames for n in ast.walk(f.node))]
+            if len(t3) == 1:
+                ts = t3
+        if len(ts) != 1:
+            raise AnalysisError(f'coordinate transform of {root.short} not recognised: {[f.name for f in ts]}')
+        return {'descent': d, 'level_callees': lc, 'transform': self._method_face(ts[0], clo),
+                'array_fn': self._array_callee(d, lc)}
 
-            def reads_box(f):
-                return any(isinstance(n, ast.Attribute) and n.attr in bnames for n in ast.walk(f.node))
-            ft3, it3 = [f for f in ft if reads_box(f)], [f for f in it_ if reads_box(f)]
-            if len(ft3) == 1 and len(it3) == 1:
-                ft, it_ = ft3, it3
-        if len(ft) != 1 or len(it_) != 1:
-            raise AnalysisError(f'coordinate transforms not recognised: {[f.name for f in ft]}, {[f.name for f in it_]}')
-        self.p2d, self.d2p = self._method_face(ft[0], fwd), self._method_face(it_[0], inv)
-        self.node_fn = self._array_callee(self.forward, self.level_callees_fwd)
-        self.numbr_fn = self._array_callee(self.inverse, self.level_callees_inv)
-        self.heavy = {f.name for f in (self.node_fn, self.numbr_fn) if f is not None}
+    def opt(self, which: str, key: str):
+        """The recognised part, or None when that direction was not recognised (for rules that can do without)."""
+        return self._halves[which][key] if which in self._halves else None
+
+    def _half(self, which: str, key: str):
+        if which not in self._halves:
+            raise self._half_err[which]
+        return self._halves[which][key]
+
+    forward = property(lambda self: self._half('fwd', 'descent'))
+    inverse = property(lambda self: self._half('inv', 'descent'))
+    level_callees_fwd = property(lambda self: self._half('fwd', 'level_callees'))
+    level_callees_inv = property(lambda self: self._half('inv', 'level_callees'))
+    p2d = property(lambda self: self._half('fwd', 'transform'))
+    d2p = property(lambda self: self._half('inv', 'transform'))
+    node_fn = property(lambda self: self._half('fwd', 'array_fn'))
+    numbr_fn = property(lambda self: self._half('inv', 'array_fn'))
+
+    @property
+    def heavy(self):
+        out = set()
+        for which in ('fwd', 'inv'):
+            if which in self._halves and self._halves[which]['array_fn'] is not None:
+                out.add(self._halves[which]['array_fn'].name)
+        return out
 
     def _method_face(self, f: FuncInfo, closure) -> FuncInfo:
         """A transform written as a free function (moved to a helper module) is analysed through the method of the
@@ -77,9 +105,12 @@ class Evo:
 
     def _scratch_attrs(self) -> Set[str]:
         """Attributes of self that the forward descent stores into (element-wise or whole)."""
+        return self._scratch_attrs_of(self.forward)
+
+    def _scratch_attrs_of(self, desc: FuncInfo) -> Set[str]:
         out: Set[str] = set()
-        selfn = self.forward.param_names[0]
-        for n in ast.walk(self.forward.node):
+        selfn = desc.param_names[0]
+        for n in ast.walk(desc.node):
             tg = []
             if isinstance(n, ast.Assign):
                 tg = n.targets
@@ -240,7 +271,7 @@ class Evo:
         return None
 
     def explorer(self, unroll: int = 1, **kw):
-        heavy = {f for f in (self.node_fn, self.numbr_fn) if f is not None}
+        heavy = {f for f in (self.opt('fwd', 'array_fn'), self.opt('inv', 'array_fn')) if f is not None}
         ex = self.ctx.explorer(inline=lambda f, st: self._is_mine(f) and f not in heavy, unroll=unroll,
                                max_paths=30000, opaque=heavy, **kw)
         return ex
@@ -459,10 +490,14 @@ def evo_of(ctx: Ctx) -> Evo:
     e = getattr(ctx, '_evo', None)
     if e is None:
         e = ctx._evo = Evo(ctx)
-        ctx.analysed['evolvent_roles'] = {'forward': e.forward.short, 'cube_to_box': e.p2d.short,
-                                          'box_to_cube': e.d2p.short, 'inverse': e.inverse.short,
-                                          'node_rule': e.node_fn.short if e.node_fn else None,
-                                          'number_rule': e.numbr_fn.short if e.numbr_fn else None}
+        def nm(which, key):
+            if which not in e._halves:
+                return f'not recognised: {e._half_err[which]}'
+            f = e._halves[which][key]
+            return f.short if f is not None else None
+        ctx.analysed['evolvent_roles'] = {'forward': nm('fwd', 'descent'), 'cube_to_box': nm('fwd', 'transform'),
+                                          'box_to_cube': nm('inv', 'transform'), 'inverse': nm('inv', 'descent'),
+                                          'node_rule': nm('fwd', 'array_fn'), 'number_rule': nm('inv', 'array_fn')}
     return e
 
 
@@ -728,6 +763,24 @@ def rule_bounds_binding(ctx: Ctx, rid: str):
                           key=f'{rid}::{si.short}::{pname}')
     ctx.floor(rid, 'Evolvent construction sites in the solver', n, 1)
     rule_box_copied(ctx, rid)
+
+
+def rule_no_shared_state(ctx: Ctx, rid: str):
+    """The evolvent keeps no state outside its instances: a class attribute, module variable or module-level table
+    written by evolvent code is shared by all evolvents of the process - what one instance (of another dimension,
+    density or box) leaves there is read by the queries of the others."""
+    ctx.rule(rid, 'no process-wide state in the evolvent: evolvent code writes no class attribute, module variable or '
+                  'object allocated at import time')
+    from . import c12
+    e = evo_of(ctx)
+    pkg = e.cls.module.name.rsplit('.', 1)[0]
+    n = c12.r12_2(ctx, only_modules=[pkg], rid=rid,
+                  consequence='every Evolvent of the process reads it, so the answer of a query depends on which other '
+                              'evolvents were constructed or queried before')
+    ctx.floor(rid, 'run-time mutation sites in the evolvent package', n, 20)
+    if not any(f.rule == rid for f in ctx.findings):
+        ctx.ok(rid, e.cls.name, f'{n} run-time mutation sites in the evolvent package: all on instance or call-local '
+                                f'objects', e.cls.module.relpath)
 
 
 def rule_box_copied(ctx: Ctx, rid: str):
